@@ -112,9 +112,12 @@ def _occ(et, suffix=None):
     return Occupation(evaluation_times=et, tag_suffix=suffix)
 
 
-def gen_agg_case(rng, malformed=False):
+AGG_NOISES = ["none", "dephasing", "relaxation", "depolarizing", "spam+dephasing"]
+
+
+def gen_agg_case(rng, malformed=False, noise="spam", n_runs=None):
     """per-run fabricated values: dyadic numbers so that sums are exact in binary64"""
-    n_runs = rng.choice([1, 2, 2, 3, 5, 8, 16, 50, rng.randint(1, 50)])
+    n_runs = n_runs or rng.choice([1, 2, 2, 3, 5, 8, 16, 50, rng.randint(1, 50)])
     n = rng.choice([2, 3])
     ntimes = rng.randint(1, 3)
     times = sorted(rng.sample([0.0, 0.25, 0.5, 0.75, 1.0], ntimes))
@@ -145,7 +148,8 @@ def gen_agg_case(rng, malformed=False):
                     vals[key] = [rng.randint(0, 1024) / 1024.0 for _ in range(n)]
         runs.append(vals)
     case = {"n": n, "n_runs": n_runs, "obs": obs, "runs": runs, "shots": shots, "malformed": None,
-            "backend": rng.choice(["sv", "mps"])}
+            "backend": rng.choice(["sv", "mps"]), "noise": "spam"}
+    case["noise"] = noise
     if malformed and n_runs >= 2:
         how = rng.choice(["drop_time", "order", "duration", "drop_obs"])
         case["malformed"] = {"how": how, "run": rng.randrange(n_runs)}
@@ -191,7 +195,17 @@ def run_agg_impl(case):
 
     observables = _make_observables(case)
     seq = _small_sequence(case["n"])
-    nm = pulser.NoiseModel(state_prep_error=0.3, p_false_pos=0.0, p_false_neg=0.0)
+    nk = case.get("noise", "spam")
+    nkw = {}
+    if "spam" in nk:
+        nkw.update(state_prep_error=0.3, p_false_pos=0.0, p_false_neg=0.0)
+    if "dephasing" in nk:
+        nkw.update(dephasing_rate=0.2)
+    if nk == "relaxation":
+        nkw.update(relaxation_rate=0.3)
+    if nk == "depolarizing":
+        nkw.update(depolarizing_rate=0.1)
+    nm = pulser.NoiseModel(**nkw) if nkw else None    # "none": the empty noise model
     cls, cfgcls = (emu_sv.SVBackend, emu_sv.SVConfig) if case["backend"] == "sv" else (emu_mps.MPSBackend, emu_mps.MPSConfig)
     kw = {"gpu": False} if case["backend"] == "sv" else {}
     with warnings.catch_warnings():
@@ -331,7 +345,11 @@ def aggregate_stage(ctx, n_cases):
         ev = common.CoqEval("C34agg", HEADER)
         recs = []
         for i in range(n_cases):
-            case = gen_agg_case(ctx.rng, malformed=(i % 6 == 5))
+            if i % 3 == 2:   # trajectory-invariant models (empty / Lindblad-only / mixed), n_trajectories 2, 5, 12
+                case = gen_agg_case(ctx.rng, noise=AGG_NOISES[(i // 3) % len(AGG_NOISES)],
+                                    n_runs=[2, 5, 12][(i // 3) % 3])
+            else:
+                case = gen_agg_case(ctx.rng, malformed=(i % 6 == 5))
             case["np_seed"] = ctx.rng.randrange(2 ** 31)
             out, per_run, datas, observables, err = run_agg_impl(case)
             ev.add("dump (aggregate [" + "; ".join(_enc_results(case, r, observables) for r in per_run) + "])")
@@ -340,9 +358,9 @@ def aggregate_stage(ctx, n_cases):
         for (case, out, per_run, datas, observables, err), o in zip(recs, outs):
             code, model = _canon_model(parse(o))
             how = (case["malformed"] or {}).get("how")
-            key = f"{case['backend']}/runs={'1' if case['n_runs'] == 1 else '2+'}/{how or 'ok'}/{'err' if err else 'ok'}"
+            key = f"{case['backend']}/{case['noise']}/runs={'1' if case['n_runs'] == 1 else '2+'}/{how or 'ok'}/{'err' if err else 'ok'}"
             hist[key] = hist.get(key, 0) + 1
-            ctx.count_case({"kind": "aggregate", "backend": case["backend"], "n_runs": case["n_runs"],
+            ctx.count_case({"kind": "aggregate", "backend": case["backend"], "n_runs": case["n_runs"], "noise": case["noise"],
                             "obs": [(x["kind"], x["vtype"]) for x in case["obs"]], "malformed": how,
                             "error": bool(err)}, nontrivial=case["n_runs"] >= 2)
             good, d = True, ""
@@ -379,9 +397,11 @@ def aggregate_stage(ctx, n_cases):
 
 # ---- (c) real kernels, real noise: per-run results vs aggregate; tensor sharing ------------------------
 def gen_e2e_case(rng):
-    noise = rng.choice(["spam", "spam", "amplitude", "detuning", "register", "spam+amplitude", "none", "dephasing"])
+    noise = rng.choice(["spam", "spam", "amplitude", "detuning", "register", "spam+amplitude", "none", "dephasing",
+                        "relaxation", "depolarizing", "spam+dephasing", "none", "dephasing"])
+    lind = any(k in noise for k in ("dephasing", "relaxation", "depolarizing"))
     return {"backend": rng.choice(["sv", "mps"]), "n": rng.choice([2, 3]), "noise": noise,
-            "ntraj": rng.choice([1, 2, 3, 5, 8, 13, 20, 50]) if noise not in ("none", "dephasing") else rng.choice([1, 4]),
+            "ntraj": rng.choice([1, 2, 3, 5, 8, 13, 20, 50]) if not (lind or noise == "none") else rng.choice([2, 5, 8, 12]),
             "eta": rng.choice([0.2, 0.5, 0.8]), "shots": rng.choice([10, 100]), "seed": rng.randrange(2 ** 31)}
 
 
@@ -397,8 +417,12 @@ def _noise_model(case):
         kw.update(detuning_sigma=0.5)
     if k == "register":
         kw.update(temperature=50.0, trap_waist=1.0, trap_depth=150.0)   # noise types: doppler + register
-    if k == "dephasing":
-        kw.update(dephasing_rate=0.2)
+    if "dephasing" in k:
+        kw.update(dephasing_rate=40.0)     # strong: P(no jump in a 60 ns emu-mps run) <= exp(-2.4)
+    if k == "relaxation":
+        kw.update(relaxation_rate=5.0)
+    if k == "depolarizing":
+        kw.update(depolarizing_rate=20.0)
     if not kw:
         return None
     with warnings.catch_warnings():
@@ -441,8 +465,10 @@ def run_e2e(case):
         return res
 
     cls._run_from_sequence_data = staticmethod(wrapped)
+    import random as _random
     np.random.seed(case["seed"])
     torch.manual_seed(case["seed"])
+    _random.seed(case["seed"])           # emu-mps draws its quantum-jump thresholds from the global `random`
     try:
         with warnings.catch_warnings():
             warnings.simplefilter("ignore")
@@ -464,10 +490,20 @@ def check_e2e(ctx, case):
                       {"case": case, "finding_key": "multi-trajectory-raises"})
         return
     problems = []
-    shot_to_shot = case["noise"] not in ("none", "dephasing")
-    expect = case["ntraj"] if shot_to_shot else None
-    if expect is not None and len(per_run) != expect:
-        problems.append(("run-count", f"{len(per_run)} runs for n_trajectories={expect}"))
+    # "the returned results combine exactly n_trajectories simulations": for EVERY noise model (empty, Lindblad-only,
+    # SPAM, shot-to-shot, mixed), on both backends
+    expect = case["ntraj"]
+    if len(per_run) != expect:
+        problems.append(("run-count", f"{len(per_run)} simulations for n_trajectories={expect} (noise model: {case['noise']})"))
+    # emu-mps unravels Lindblad noise into quantum-jump trajectories: the runs must be independent draws.
+    # dephasing 40/us or depolarizing 20/us on >= 2 atoms for 60 ns: P(a run has no jump) <= 0.1, so
+    # P(all of >= 8 runs are the identical no-jump trajectory) <= 1e-8
+    if (case["backend"] == "mps" and len(per_run) >= 8
+            and any(k in case["noise"] for k in ("dephasing", "depolarizing"))):
+        occs = [tuple(np.round(np.asarray(r.get_result("occupation", 1.0), dtype=float), 12)) for r in per_run]
+        if len(set(occs)) == 1:
+            problems.append(("identical-jump-trajectories",
+                             f"all {len(per_run)} emu-mps runs with Lindblad noise returned identical occupations"))
     if len(per_run) == 1 and out is not per_run[0]:
         problems.append(("single-run", "single run not returned unchanged"))
     if len(per_run) >= 2:
@@ -485,6 +521,9 @@ def check_e2e(ctx, case):
     tot = sum(out.get_result("bitstrings", 1.0).values())
     if tot != len(per_run) * case["shots"]:
         problems.append(("counts", f"bitstring total {tot} != {len(per_run)} runs * {case['shots']} shots"))
+    if tot != case["ntraj"] * case["shots"]:
+        problems.append(("counts", f"bitstring total {tot} != n_trajectories {case['ntraj']} * {case['shots']} shots "
+                                   f"(noise model: {case['noise']})"))
     # drive tensors: the same storage only between runs with the same bad atoms; every run sees, before it
     # starts, the clean drive on its good atoms (no leftover zeroing from an earlier trajectory)
     if "spam" in case["noise"] and case["noise"] == "spam":
@@ -527,11 +566,12 @@ def run(ctx):
         check_e2e(ctx, case)
     ctx.rule = ("(a) reps lists of 0-8 trajectories with reps 0..50: real get_sequences with scripted noisy_samples vs "
                 "`expand` (order, count, one extraction per trajectory, tensor shared exactly between repetitions); "
-                "(b) real run() of both backends, SPAM noise, n_trajectories 1..50, `_run_from_sequence_data` stubbed "
+                "(b) real run() of both backends, SPAM noise with n_trajectories 1..50 and empty / Lindblad-only / mixed noise "
+                "models with n_trajectories 2, 5, 12, `_run_from_sequence_data` stubbed "
                 "to fabricate per-run Results (tensor/list/float MEAN values, BitStrings counters, SKIP_WARN states; "
                 "malformed: missing time, missing observable, atom order, duration): pulser's Results.aggregate vs "
                 "vm_compute of the model on exact rationals; (c) real kernels, 2-3 atoms, SPAM/amplitude/detuning/"
-                "register/dephasing/no noise, n_trajectories 1..50: recorded per-run Results vs the returned aggregate, "
+                "register/dephasing/relaxation/depolarizing/mixed/no noise, n_trajectories 1..50: recorded per-run Results vs the returned aggregate, "
                 "number of runs, bitstring totals, state of the shared drive tensors before/after every run. "
                 "non-trivial = >= 2 runs (or >= 2 trajectories for the expansion).")
     ctx.trusted_base += ["hand-written Model/Aggregate.v of pulser 1.9.1 Results.aggregate, tied by correspondence (b)",
